@@ -1487,6 +1487,24 @@ func sharesSessionsEntry(p pdr, others []pdr) bool {
 // modifyUP4ForwardingConfiguration builds and applies the entries of the PDRs one PDR at a time. remaining: for
 // DELETE, the PDRs that stay with the session. writtenFARs, if not nil, collects the IDs of the FARs of the PDRs
 // whose entries were written: after a failure, the tunnel peers of these FARs may already be referenced by the switch.
+// qerIDsByRole returns the QER IDs of a PDR with its application QER first. The PFCP layer marks the
+// session QER anew on every modification and moves it to the end of the list; on the switch a QER
+// keeps the role, and the meter, it was installed with.
+func (up4 *UP4) qerIDsByRole(p pdr) []uint32 {
+	if len(p.qerIDList) != 2 {
+		return p.qerIDList
+	}
+
+	first, firstExists := up4.meters[meterID{qerID: p.qerIDList[0], fseid: p.fseID}]
+	second, secondExists := up4.meters[meterID{qerID: p.qerIDList[1], fseid: p.fseID}]
+
+	if firstExists && secondExists && first.meterType == meterTypeSession && second.meterType == meterTypeApplication {
+		return []uint32{p.qerIDList[1], p.qerIDList[0]}
+	}
+
+	return p.qerIDList
+}
+
 func (up4 *UP4) modifyUP4ForwardingConfiguration(pdrs []pdr, allFARs []far, qers []qer, methodType p4.Update_Type, remaining []pdr, writtenFARs *[]uint32) error {
 	var (
 		appID  uint8
@@ -1499,6 +1517,8 @@ func (up4 *UP4) modifyUP4ForwardingConfiguration(pdrs []pdr, allFARs []far, qers
 		if err = verifyPDR(pdr); err != nil {
 			return err
 		}
+
+		pdr.qerIDList = up4.qerIDsByRole(pdr)
 
 		entriesToApply := make([]*p4.TableEntry, 0)
 
